@@ -101,11 +101,14 @@ structure Arr where
   count : Nat
   capacity : Int
   cells : Array (Option Val)
+  /-- `array->data == NULL` (no storage was ever allocated, or array/trim freed it): array/concat compares data
+  pointers to detect "the same array", and two NULL pointers compare equal -/
+  isNull : Bool := false
   deriving Repr, Inhabited
 
 /-- `janet_array(capacity)` -/
 def Arr.new (capacity : Int) : Arr :=
-  { count := 0, capacity := capacity, cells := Array.replicate capacity.toNat none }
+  { count := 0, capacity := capacity, cells := Array.replicate capacity.toNat none, isNull := decide (capacity ≤ 0) }
 
 /-- elements `0..count` -/
 def Arr.items (a : Arr) : List (Option Val) := readAt a.cells 0 a.count
@@ -118,7 +121,7 @@ def Arr.ensure (a : Arr) (capacity growth : Int) : Option Arr :=
     let nc := if nc > i32max then i32max else nc
     -- realloc(p, 0) frees p and returns NULL (-> out of memory) unless p is NULL already; a negative size fails
     if nc < 0 ∨ (nc = 0 ∧ a.cells.size ≠ 0) then none
-    else some { a with capacity := nc, cells := realloc a.cells nc.toNat }
+    else some { a with capacity := nc, cells := realloc a.cells nc.toNat, isNull := false }
 
 /-- `janet_array_setcount` -/
 def Arr.setcount (a : Arr) (count : Int) : Arr × Outcome Val :=
@@ -160,7 +163,7 @@ def Arr.cfunPush (a : Arr) (xs : List Val) : Arr × Outcome Val :=
 def Arr.newFilled (count : Arg) (x : Val) : Option Arr :=
   match count with
   | .int n => if n < 0 then none else
-      some { count := n.toNat, capacity := n, cells := Array.replicate n.toNat (some x) }
+      some { count := n.toNat, capacity := n, cells := Array.replicate n.toNat (some x), isNull := decide (n ≤ 0) }
   | _ => none
 
 /-- `cfun_array_fill` -/
@@ -183,7 +186,7 @@ def sliceOf (items : List (Option Val)) (s e : Option Arg) : Option Arr :=
   | none => none
   | some (st, en) =>
     let n := en - st
-    some { count := n.toNat, capacity := n, cells := ((items.drop st.toNat).take n.toNat).toArray }
+    some { count := n.toNat, capacity := n, cells := ((items.drop st.toNat).take n.toNat).toArray, isNull := decide (n ≤ 0) }
 
 /-- `cfun_array_insert` -/
 def Arr.insert (a : Arr) (pos : Arg) (xs : List Val) : Arr × Outcome Val :=
@@ -236,7 +239,7 @@ def Arr.remove (a : Arr) (pos : Arg) (n : Option Arg) : Arr × Outcome Val :=
 def Arr.trim (a : Arr) : Arr × Outcome Val :=
   if a.count ≠ 0 then
     if (a.count : Int) < a.capacity then ({ a with capacity := a.count, cells := realloc a.cells a.count }, .ok) else (a, .ok)
-  else ({ a with capacity := 0, cells := #[] }, .ok)
+  else ({ a with capacity := 0, cells := #[], isNull := true }, .ok)
 
 /-- `cfun_array_clear` -/
 def Arr.clear (a : Arr) : Arr × Outcome Val := ({ a with count := 0 }, .ok)
@@ -245,6 +248,7 @@ def Arr.clear (a : Arr) : Arr × Outcome Val := ({ a with count := 0 }, .ok)
 inductive Part where
   | one (v : Val)
   | many (vs : List (Option Val))
+  | other (vs : List (Option Val)) (srcNull : Bool)   -- another array, with whether its data pointer is NULL
   | self                       -- the destination array itself
   deriving Repr
 
@@ -263,6 +267,13 @@ def Arr.concat (a : Arr) : List Part → Arr × Outcome Val
     let r := match p with
       | .one v => a.pushAll [some v]
       | .many vs => a.pushAll vs
+      | .other vs srcNull =>
+        -- `array->data == vals` also holds for two arrays without storage (both NULL)
+        if a.isNull && srcNull then
+          match a.ensure (a.count + a.count) 2 with
+          | none => (a, .oom)
+          | some a' => a'.pushAll a.items
+        else a.pushAll vs
       | .self =>
         -- `if (array->data == vals) { ensure(count + len, 2); view again }`: len is read before pushing
         match a.ensure (a.count + a.count) 2 with
